@@ -82,6 +82,11 @@ def run(tier, seed, replay=None):
             cases = pinned + cases
         samples = sorted(f for f in os.listdir(samples_dir) if f.endswith(".nif"))
         rcases = ["resave name=%s opts=%s" % (f, o) for f in samples for o in ("raw", "default")]
+        # loadable files whose pruning needs deletions that enable each other: a chain of unreferenced nodes, stored
+        # child-before-parent / parent-before-child / alternating (convergence within two rounds of the default save)
+        lsamples = samples if tier != "quick" else samples[::4]
+        rcases += ["resave name=%s opts=default loose=%d order=%s" % (f, k, o) for f in lsamples
+                   for k in ((4,) if tier == "quick" else (3, 4, 7)) for o in ("rev", "fwd", "mix")]
         fcases = [c[0].replace("blk ", "fileblk ", 1) for c in be.block_cases(info["blocks"], vers, seeds[:1])]
     # ---- block level
     res = be.par_run(plain, "blocks", [c[0] for c in cases], timeout=120)
@@ -178,7 +183,7 @@ def run(tier, seed, replay=None):
                      "file level (header, string table, PrepareData/FinalizeData moves): explored on samples and generated files, not proved here (header/string table: C07)"],
         "evaluations": stats["block_instances"] + stats["sample_resaves"] + stats["generated_files"],
         "distinct_nontrivial": stats["block_instances"] + stats["sample_resaves"] + stats["generated_files"],
-        "rule": "block level: a populated instance of every registered block type x versions %s x seeds %s (generative read: counts, optional sections and references chosen by the seed) is written, read back and written again by the implementation, and parsed/printed by the generated model (bytes, read trace, write trace compared); file level: every sample x {raw, default} save, reload, save again (twice for default); every block type inside a minimal file, raw save -> load -> raw save -> load -> raw save. Each (type, version, seed) / (file, options) is a distinct case; all are non-trivial" % (vers, seeds),
+        "rule": "block level: a populated instance of every registered block type x versions %s x seeds %s (generative read: counts, optional sections and references chosen by the seed) is written, read back and written again by the implementation, and parsed/printed by the generated model (bytes, read trace, write trace compared); file level: every sample x {raw, default} save, reload, save again (twice for default); samples extended by a chain of unreferenced nodes in three storage orders (pruning steps that enable each other) under the default save; every block type inside a minimal file, raw save -> load -> raw save -> load -> raw save. Each (type, version, seed) / (file, options) is a distinct case; all are non-trivial" % (vers, seeds),
         "samples": [c[0] for c in cases[:3]] + rcases[:2] + fcases[:2],
         "input_distribution": stats,
         "traces_validated_against_impl": stats["model_compared"],
